@@ -235,6 +235,8 @@ func (g *GoGen) Program(n int) string {
 	b.WriteString(goPrelude)
 	// a few package-level declarations with constant folding
 	b.WriteString("\nconst (\n\tK0 = iota * 3\n\tK1\n\tK2\n\tKBig = 1 << 40\n\tKMix = KBig>>38 + K2\n)\n\nconst KStr = \"k\" + \"s\"\n\nvar gCount = K1 + 1\n\n")
+	// iota with several names per spec; constants used where the compiler (not only Go) evaluates them
+	b.WriteString("const (\n\tLvA, MkA = iota, 1 << iota\n\tLvB, MkB\n\tLvC, MkC\n\tNumLv = iota\n)\n\nvar lvHits [NumLv]int\n\nfunc tIota() {\n\tlvHits[LvC]++\n\tfmt.Println(\"iota\", len(lvHits), NumLv < 4, MkC, LvB, [MkB]bool{}, NumLv == 3)\n\tif NumLv > 3 {\n\t\tfmt.Println(\"more than three levels\")\n\t}\n}\n\n")
 	// a function that uses package-level names declared after it (and after main), next to locals of the same
 	// names: the later declarations are loaded on demand while this body is being compiled
 	lateV := g.R.Range(1, 9)
@@ -243,7 +245,7 @@ func (g *GoGen) Program(n int) string {
 		b.WriteString(g.testFunc(i))
 		b.WriteString("\n")
 	}
-	b.WriteString("func main() {\n\tsafe(\"tLate\", tLate)\n")
+	b.WriteString("func main() {\n\tsafe(\"tLate\", tLate)\n\tsafe(\"tIota\", tIota)\n")
 	for i := 0; i < n; i++ {
 		fmt.Fprintf(&b, "\tsafe(\"t%d\", t%d)\n", i, i)
 	}
